@@ -251,6 +251,10 @@ func genCommandCase(prop, tier string, r *rand.Rand) *Case {
 	}
 	if r.IntN(3) == 0 {
 		cmd.Via = "cli"
+		if c.Compare != nil && r.IntN(4) == 0 {
+			// flag values as a user might type them (capitals, an unknown one)
+			c.Compare.FlagCase = 1 + r.IntN(3)
+		}
 	}
 	c.History = nil
 	c.Command = cmd
